@@ -124,7 +124,7 @@ func factsAuth() {
 		iObf := idx(evs, 0, "call", `^mux\.MakeObfuscator\(ci\.EncryptionMethod, sessionKey\)`)
 		iGate := idx(evs, 0, "if", `AdminUID`)
 		iGateEnd := matchingEnd(evs, iGate)
-		iProxy := idx(evs, iGateEnd, "if", `^_, ok := sta\.ProxyBook\[ci\.ProxyMethod\]; !ok$|^!ok$`)
+		iProxy := idx(evs, iGateEnd, "if", `^_, ok := sta\.ProxyBook\[.*\]; !ok$|^!ok$`)
 		iByp := idx(evs, 0, "if", `^sta\.IsBypass\(ci\.UID\)$`)
 		iBypEnd := matchingEnd(evs, iByp)
 		iUserErr := idx(evs, iBypEnd, "if", `^err != nil$`)
@@ -152,8 +152,33 @@ func factsAuth() {
 		iObfErr := idx(evs, iObf, "if", `^err != nil$`)
 		boolFact(g, "authErrWeb", iAuthErr > iAuth && iAuthErr < iObf && rejects(iAuthErr), "AuthFirstPacket error → goWeb(); return")
 		boolFact(g, "obfErrWeb", iObfErr > iObf && iObfErr < iGate && rejects(iObfErr), "MakeObfuscator error → goWeb(); return")
-		boolFact(g, "proxyMissWeb", rejects(iProxy) && iProxy > 0 && evs[iProxy-1].kind == "assign" &&
-			regexp.MustCompile(`^_, ok := sta\.ProxyBook\[ci\.ProxyMethod\]$`).MatchString(evs[iProxy-1].text), "method not in ProxyBook → goWeb(); return")
+		// the lookup key: the name as received, or its lower-case form (parseProxyBook stores the names lower-cased)
+		reKeyRaw := regexp.MustCompile(`^_, ok := sta\.ProxyBook\[ci\.ProxyMethod\]$`)
+		reKeyLow := regexp.MustCompile(`^_, ok := sta\.ProxyBook\[strings\.ToLower\(ci\.ProxyMethod\)\]$`)
+		keyText := ""
+		if iProxy > 0 && evs[iProxy-1].kind == "assign" {
+			keyText = evs[iProxy-1].text
+		}
+		boolFact(g, "proxyMissWeb", rejects(iProxy) && (reKeyRaw.MatchString(keyText) || reKeyLow.MatchString(keyText)), "method not in ProxyBook → goWeb(); return")
+		if reKeyRaw.MatchString(keyText) || reKeyLow.MatchString(keyText) {
+			boolFact(g, "proxyLookupLowercases", reKeyLow.MatchString(keyText), "the ProxyBook lookup key is strings.ToLower(ci.ProxyMethod) (false: the name as received)")
+		} else {
+			unrec(g, "proxyLookupLowercases", "ProxyBook lookup not recognised")
+		}
+		// serveSession must find the address under the same key, and the book's own keys are lower-cased at load
+		ssKey := ""
+		if ss := fnOf(sv, "serveSession"); ss != nil {
+			if rhs := assignRHS(ss, `^proxyAddr$`); rhs != nil {
+				ssKey = show(rhs)
+			}
+		}
+		sameKey := (reKeyRaw.MatchString(keyText) && ssKey == "sta.ProxyBook[ci.ProxyMethod]") || (reKeyLow.MatchString(keyText) && ssKey == "sta.ProxyBook[strings.ToLower(ci.ProxyMethod)]")
+		pbLower := false
+		if pb := fnOf(sv, "parseProxyBook"); pb != nil {
+			pbLower = strings.Contains(show(pb.Body), "name = strings.ToLower(name)") && strings.Count(show(pb.Body), "proxyBook[name] = addr") == 2
+		}
+		boolFact(g, "proxyBookLowercasedAtLoad", pbLower, "parseProxyBook stores every name lower-cased (name = strings.ToLower(name))")
+		boolFact(g, "proxyLookupSameKeyInServe", sameKey, "serveSession looks the proxy address up under the same key as the admission test")
 		boolFact(g, "userErrWeb", rejects(iUserErr), "GetBypassUser/GetUser error → goWeb(); return")
 		// the bypass split
 		okSplit := false
